@@ -14,9 +14,9 @@ from .. import tlc, graph, common, servers
 NONE = "none"
 HOSTS = {"named": "example.com", "ipv4": "127.0.0.1", "ipv6": "[::1]", "sub": "a.b-c.example"}
 USERS = {"u1": "user", "u2": "us%40er", "u3": "a%3Ab"}
-PWS = {"pw1": "s3cret-TOKEN-XYZ", "pw2": "p%40ss%3Aw", "pw3": "x"}
+PWS = {"pw1": "s3cret-TOKEN-XYZ", "pw2": "p%40ss%3Aw", "pw3": "x", "pw4": "s3cr@t:pw"}
 PATHS = {"p_empty": "", "p_a": "/a", "p_ae": "/a/é", "p_slash": "/"}
-QUERIES = {NONE: "", "q1": "a=1&b=2", "q2": "x=%C3%A9&x=2"}
+QUERIES = {NONE: "", "q1": "a=1&b=2", "q2": "x=%C3%A9&x=2", "q3": "q=café&z=中"}
 FRAGS = {NONE: "", "f1": "frag"}
 HOSTHDR = {"hh1": "www.example.org", "hh2": "example.org:8443", "hh3": "[::1]:9000"}
 ROOTS = {"r_empty": "", "r_r": "/r"}
@@ -66,8 +66,8 @@ def run(ctx):
     else:
         edit_sets += [frozenset({"user", "password", "host"}), frozenset({"user", "password", "port"}), frozenset({"host", "port", "scheme"})]
     K = dict(Schemes=frozenset({"http", "https", "ws", "wss"} if thorough else {"http", "wss"}), Hosts=frozenset(HOSTS if thorough else ["named", "ipv6"]),
-             Ports=frozenset({"80", "443", "8080"}), Users=frozenset({"u1", "u2"} if not thorough else USERS), Passwords=frozenset({"pw1", "pw2"}),
-             Paths=frozenset(PATHS if thorough else ["p_empty", "p_ae"]), Queries=frozenset({NONE, "q1"} if not thorough else QUERIES),
+             Ports=frozenset({"80", "443", "8080"}), Users=frozenset({"u1", "u2"} if not thorough else USERS), Passwords=frozenset({"pw1", "pw4"} if not thorough else PWS),
+             Paths=frozenset(PATHS if thorough else ["p_empty", "p_ae"]), Queries=frozenset({NONE, "q3"} if not thorough else QUERIES),
              Fragments=frozenset(FRAGS if thorough else [NONE]), HostHeaders=frozenset(HOSTHDR), Roots=frozenset(ROOTS),
              DefaultPort=frozenset(DEFAULTS), EditKeys=frozenset(edit_sets))
     ctx.bounds = {k: (len(v) if isinstance(v, frozenset) else v) for k, v in K.items()}
